@@ -317,6 +317,74 @@ def check(run):
                         run.violation("R5", f.where, f"regex {pat.value!r} in `{f.qualname}` nests an unbounded repetition inside another: matching time can "
                                                      f"grow exponentially with the input", key=key_of("C20-R5", f.qualname, repr(pat.value)))
     run.floor("literal regular expressions in loader modules", n_re, 3)
+    # ------------------------------------------------------------------ R6 strided windows over file bytes are bounded
+    run.rule("R6", "every np.lib.stride_tricks.as_strided window over file bytes lies inside a buffer whose size numpy itself checked: the base is "
+                   "np.frombuffer(..., count=N) with N == sum((shape_i - 1) * stride_i) + 1 (polynomial identity), or an explicit test of that very span against len(data) "
+                   "dominates it - otherwise a corrupted count reads past the end of the bytes object (segfault, not an exception)")
+    import sympy as _sp
+
+    from ..dag import Values
+    n6 = 0
+    for f in ix.all_functions:
+        if not f.module.name.startswith(("trimesh.exchange.", "trimesh.path.exchange.")):
+            continue
+        calls = [c for c in ast.walk(f.node) if isinstance(c, ast.Call) and ast.unparse(c.func).endswith("as_strided")]
+        if not calls or any(n_.node is not f.node and any(c in list(ast.walk(n_.node)) for c in calls) for n_ in f.nested.values()):
+            continue
+        V6 = Values(ix, f)
+        syms = {}
+
+        def to_sym(node):
+            n_ = V6.dag.node(node) if isinstance(node, ast.Name) else node
+            if isinstance(n_, ast.Constant) and isinstance(n_.value, (int, float)) and not isinstance(n_.value, bool):
+                return _sp.nsimplify(n_.value)
+            if isinstance(n_, ast.BinOp) and isinstance(n_.op, (ast.Add, ast.Sub, ast.Mult)):
+                a_, b_ = to_sym(n_.left), to_sym(n_.right)
+                return a_ + b_ if isinstance(n_.op, ast.Add) else (a_ - b_ if isinstance(n_.op, ast.Sub) else a_ * b_)
+            key_ = V6.dag._ident(node) if isinstance(node, ast.Name) else ast.unparse(n_)
+            return syms.setdefault(key_, _sp.Symbol(f"q{len(syms)}", positive=True))
+
+        for c in calls:
+            st_ = V6.pv.stmt_of(c)
+            if st_ is None or len(c.args) < 3:
+                continue
+            n6 += 1
+            where = f"{f.module.rel}:{c.lineno} {f.qualname}"
+            base, shape, strides = V6.value(c.args[0], st_), c.args[1], c.args[2]
+            if not (isinstance(shape, (ast.List, ast.Tuple)) and isinstance(strides, (ast.List, ast.Tuple)) and len(shape.elts) == len(strides.elts)):
+                run.instance("R6", where, "as_strided with a shape / strides that are not literal lists - NOT decided", True, nontrivial=False)
+                run.assume(f"{f.qualname}: as_strided shape / strides not literal")
+                continue
+            span = _sp.Integer(1)
+            for sh_, sd_ in zip(shape.elts, strides.elts):
+                span += (to_sym(V6.value(sh_, st_)) - 1) * to_sym(V6.value(sd_, st_))
+            fb = V6.match("numpy.frombuffer(_e_data, count=_e_N, dtype=numpy.uint8, offset=_e_off)", base) or V6.match("numpy.frombuffer(_e_data, count=_e_N, dtype=numpy.uint8)", base)
+            bounded = fb is not None and _sp.expand(to_sym(ast.Name(id=fb["_e_N"], ctx=ast.Load()) if fb["_e_N"] in V6.dag.defs else ast.parse(fb["_e_N"], mode="eval").body) - span) == 0
+            guard = False
+            if not bounded:
+                # an explicit comparison of offset + span with len(data) that every path to the call passes (assert / raise)
+                fb2 = fb or V6.match("numpy.frombuffer(_e_data, dtype=numpy.uint8, offset=_e_off)", base) or V6.match("numpy.frombuffer(_e_data, dtype=numpy.uint8)", base)
+                off = to_sym(ast.parse(fb2["_e_off"], mode="eval").body if fb2 and "_e_off" in fb2 and fb2["_e_off"] not in V6.dag.defs else
+                             (ast.Name(id=fb2["_e_off"], ctx=ast.Load()) if fb2 and "_e_off" in fb2 else ast.Constant(value=0)))
+                for g_ in ast.walk(f.node):
+                    tests_ = [g_.test] if isinstance(g_, ast.Assert) else []
+                    for t_ in tests_:
+                        if not isinstance(t_, ast.Compare):
+                            continue
+                        terms = [t_.left] + list(t_.comparators)
+                        for (l_, o_, r_) in zip(terms, t_.ops, terms[1:]):
+                            if isinstance(o_, (ast.LtE, ast.Lt)) and isinstance(r_, ast.Call) and ast.unparse(r_.func) == "len":
+                                lv = to_sym(V6.value(l_, g_))
+                                if _sp.expand(lv - (off + span)) == 0 or _sp.expand(lv - (off + span - 1)) == 0:
+                                    guard = True
+            ok = bounded or guard
+            run.instance("R6", where, f"as_strided window spans {span} bytes of its base; base = frombuffer(count=that span): {bounded}; explicit span test: {guard}", ok)
+            if not ok:
+                run.violation("R6", where, f"`{f.qualname}` builds an as_strided window of {span} bytes (q* = values read from the file) over a buffer that is neither created with that "
+                                           f"`count` nor tested against that span: a corrupted element count / stride reads past the end of the file bytes and can crash the interpreter",
+                              key=key_of("C20-R6", f.qualname, "as_strided"))
+    run.instance("R6", "trimesh/exchange", f"{n6} as_strided windows examined", True, nontrivial=False)
+
     run.assume("time / memory proportionality beyond the STL and PLY header guards, third-party parsers (lxml, json, PIL, collada, meshio), and "
                "RecursionError on cyclic references are not decided")
     return {
